@@ -86,6 +86,10 @@ const (
 	// the same time (the scenario gives it to limit+1 functions, so they can
 	// only all meet if the concurrency limit is exceeded)
 	OverBar = "overbar"
+	// Bar: block until every function with this decision is executing at the
+	// same time; the scenario gives it to exactly `limit` functions, so they
+	// must all get through (capacity is real).
+	Bar = "bar"
 )
 
 // Decision is the driver's answer for one invocation.
@@ -194,7 +198,7 @@ func Call(id string, ctx context.Context, args ...uint64) Result {
 		H.CancelCtx()
 	case Gate:
 		H.Gate()
-	case OverBar:
+	case OverBar, Bar:
 		H.OverBar()
 	}
 	H.End(id, d.Kind)
